@@ -416,6 +416,12 @@ class VCRuntime:
 
         from . import text as _text
 
+        if isinstance(getattr(o, "__self__", None), VCRuntime) and getattr(o, "__name__", "").startswith("b_"):
+            # <builtin type>.<method>(...), e.g. tuple.__new__(cls, ...), int.from_bytes(...): the type itself
+            import builtins as _b
+
+            o = getattr(_b, o.__name__[2:])
+
         if isinstance(o, _re.Pattern) and args and hasattr(args[0], "sym_regex") and name in ("fullmatch", "match", "search"):
             return args[0].sym_regex(o, name)
         if isinstance(o, _re.Pattern) and args and isinstance(args[0], _text.SText):
